@@ -67,6 +67,7 @@ func checkC15(w *World, r *Report) {
 	// the verifier is found by what it does, not by its name: the module function called by the query below which
 	// x509's CheckSignature is reached
 	var isv *ssa.Function
+	_ = isv
 	if ver != nil {
 		for _, s := range cg.Sites[ver] {
 			for _, c := range s.Callees {
@@ -81,7 +82,7 @@ func checkC15(w *World, r *Report) {
 	}
 	csk := w.Func("x/cfesignature/keeper.Keeper.CreateStorageKey")
 	gpl := w.Func("x/cfesignature/keeper.Keeper.GetPayloadLink")
-	for n, f := range map[string]*ssa.Function{"PublishReferencePayloadLink": pub, "VerifySignature": ver, "isValidSignature": isv, "CreateStorageKey": csk, "GetPayloadLink": gpl} {
+	for n, f := range map[string]*ssa.Function{"PublishReferencePayloadLink": pub, "VerifySignature": ver, "CreateStorageKey": csk, "GetPayloadLink": gpl} {
 		if f == nil {
 			r.Unk("infra.anchor", "x/cfesignature/keeper "+n, "", "anchor not found")
 			return
@@ -176,110 +177,26 @@ func checkC15(w *World, r *Report) {
 	}
 	tr := w.Tracer()
 	// ---------- C15.payload / args / verdict / fields ----------
-	var isvCall, gplCall, cskCall, gsCall *Site
-	for _, s := range cg.Sites[ver] {
-		switch {
-		case len(s.Callees) == 1 && s.Callees[0] == isv:
-			isvCall = s
-		case calleeIs(s, "x/cfesignature/keeper.Keeper.GetPayloadLink"):
-			gplCall = s
-		case calleeIs(s, "x/cfesignature/keeper.Keeper.CreateStorageKey"):
-			cskCall = s
-		case calleeIs(s, "x/cfesignature/keeper.Keeper.GetSignature"):
-			gsCall = s
-		}
-	}
-	if isvCall == nil || gplCall == nil || cskCall == nil || gsCall == nil {
-		r.Bad("C15.payload", "VerifySignature: lookup of record and link, verification call", w.Pos(ver.Pos()), "the query no longer consists of CreateStorageKey + GetSignature + GetPayloadLink + isValidSignature")
-		return
-	}
-	reqP := msgParam(ver)
-	fromReq := func(v ssa.Value, field string) bool {
-		o := tr.Origins(v)
-		ok := false
-		for _, l := range o.Leaves {
-			if l.Kind == "param" && l.V == ssa.Value(reqP) {
-				if strings.HasSuffix(l.Path, "."+field) {
-					ok = true
-				} else if l.Path != "" {
-					return false
-				}
-			}
-		}
-		return ok
-	}
-	ia := isvCall.Args()
-	// isValidSignature(goCtx, targetAccAddress, signaturePayload, signature, algorithm, certificate)
-	strParams := []*ssa.Parameter{}
-	for _, p := range isv.Params {
-		if typeString(p.Type()) == "string" {
-			strParams = append(strParams, p)
-		}
-	}
-	if len(strParams) < 4 {
-		r.Unk("C15.args", "verifier: string parameters for payload, signature, algorithm, certificate", w.Pos(isv.Pos()), fmt.Sprintf("%d string parameters", len(strParams)))
-		return
-	}
-	argOf := func(p *ssa.Parameter) ssa.Value {
-		off := len(isv.Params) - len(ia) // Args() excludes a receiver, if there is one
-		for i, x := range isv.Params {
-			if x == p && i-off >= 0 && i-off < len(ia) {
-				return ia[i-off]
-			}
+	// everything is located by what it does, in the query or in the helpers it calls: the three lookups, the x509
+	// verification, the hash of the payload; values are traced with helper parameters bound to what the query hands down
+	find := func(match func(*Site) bool) []EffSite { return w.effectsBelow(ver, match, 3) }
+	one := func(es []EffSite) *EffSite {
+		if len(es) == 1 {
+			return &es[0]
 		}
 		return nil
 	}
-	// roles inside the verifier, discovered from the CheckSignature call
-	var check *ssa.Call
-	for _, s := range cg.Sites[isv] {
-		if strings.HasSuffix(s.CalleeName(), "x509.Certificate.CheckSignature") {
-			check = siteCall(s)
-		}
-	}
-	if check == nil {
-		r.Bad("C15.args", "isValidSignature calls x509 CheckSignature", w.Pos(isv.Pos()), "no CheckSignature call")
+	gplE := one(find(func(s *Site) bool { return calleeIs(s, "x/cfesignature/keeper.Keeper.GetPayloadLink") }))
+	cskE := one(find(func(s *Site) bool { return calleeIs(s, "x/cfesignature/keeper.Keeper.CreateStorageKey") }))
+	gsE := one(find(func(s *Site) bool { return calleeIs(s, "x/cfesignature/keeper.Keeper.GetSignature") }))
+	checkE := one(find(func(s *Site) bool { return strings.HasSuffix(s.CalleeName(), "x509.Certificate.CheckSignature") }))
+	if gplE == nil || cskE == nil || gsE == nil || checkE == nil || len(gplE.Chain) > 0 || len(cskE.Chain) > 0 || len(gsE.Chain) > 0 {
+		r.Bad("C15.payload", "VerifySignature: lookup of record and link, verification call", w.Pos(ver.Pos()), "the query no longer consists of one CreateStorageKey, one GetSignature, one GetPayloadLink (in the query itself) and one x509 CheckSignature below it")
 		return
 	}
-	ca := check.Common().Args // cert, algo, signed, signature
-	roleParam := func(v ssa.Value, via ...string) *ssa.Parameter {
-		o := tr.Origins(v)
-		// a lookup function maps its argument by control flow only (algorithm name -> x509 constant):
-		// include the arguments of the named mapping calls
-		vals := []ssa.Value{v}
-		for c := range o.Calls {
-			for _, s := range via {
-				if strings.Contains(callName(c.Common()), s) {
-					vals = append(vals, c.Common().Args...)
-				}
-			}
-		}
-		o = tr.OriginsAll(vals...)
-		var found *ssa.Parameter
-		n := 0
-		for _, p := range strParams {
-			if o.Visited(p) {
-				found = p
-				n++
-			}
-		}
-		for _, s := range via {
-			if !visitedCallNamed(o, s) {
-				return nil
-			}
-		}
-		if n != 1 {
-			return nil
-		}
-		return found
-	}
-	pCert := roleParam(ca[0], "GetUserCertificateFromString")
-	pAlgo := roleParam(ca[1], "GetSignatureAlgorithmFromString")
-	pPayload := roleParam(ca[2])
-	pSig := roleParam(ca[3], "base64.Encoding.DecodeString")
-	if pCert == nil || pAlgo == nil || pPayload == nil || pSig == nil {
-		r.Bad("C15.args", "CheckSignature(cert, algorithm, payload, signature) each from exactly one parameter", w.Pos(check.Pos()), "the verifier's parameters do not map one-to-one to the roles of CheckSignature")
-		return
-	}
+	gplCall, cskCall, gsCall := gplE.Site, cskE.Site, gsE.Site
+	check := siteCall(checkE.Site)
+	reqP := msgParam(ver)
 	// the record
 	var rec ssa.Value
 	for _, ref := range *gsCall.Instr.(*ssa.Call).Referrers() {
@@ -287,63 +204,116 @@ func checkC15(w *World, r *Report) {
 			rec = ex
 		}
 	}
-	recField := func(v ssa.Value, f string) bool {
-		return loadOfField(v, f, func(b ssa.Value) bool { return derefRoot(b) == rec || derefRootThroughLocal(b) == rec })
+	// roleTracer: the stored record, the stored link and the two decoders are leaves (the decoders map their argument
+	// by control flow: as leaf calls their arguments are traced); the request is a parameter leaf
+	roleTracer := func() *Tracer {
+		t := w.Tracer()
+		t.Depth = 5
+		for _, n := range []string{"x/cfesignature/keeper.Keeper.GetSignature", "x/cfesignature/keeper.Keeper.GetPayloadLink", "x/cfesignature/util.GetSignatureAlgorithmFromString", "x/cfesignature/util.GetUserCertificateFromString", "x/cfesignature/util.CalculateHash", "x/cfesignature/util.HashConcat"} {
+			t.Opaque[n] = true
+		}
+		t.Stop = []string{"keeper.Keeper.GetSignature", "keeper.Keeper.GetPayloadLink"}
+		return t
 	}
-	r.Check(recField(argOf(pSig), "Signature"), "C15.args", "signature role <- stored record.Signature", w.Pos(isvCall.Instr.Pos()), "record.Signature", "the value verified as signature is not the stored signature")
-	r.Check(recField(argOf(pAlgo), "Algorithm"), "C15.args", "algorithm role <- stored record.Algorithm", w.Pos(isvCall.Instr.Pos()), "record.Algorithm", "the algorithm used is not the stored algorithm")
-	r.Check(recField(argOf(pCert), "Certificate"), "C15.args", "certificate role <- stored record.Certificate", w.Pos(isvCall.Instr.Pos()), "record.Certificate", "the certificate used is not the stored certificate")
-	// payload
-	pay, paySubst := w.throughHelpers(argOf(pPayload), "util.CalculateHash", "util.HashConcat")
-	okPay := false
-	if h, ok := isCallTo(pay, "util.CalculateHash"); ok {
-		if hc, ok := isCallTo(h.Common().Args[0], "util.HashConcat"); ok {
-			el := varargElems(hc.Common().Args[0])
-			for i := range el {
-				el[i] = paySubst(el[i])
-			}
-			if len(el) == 3 && fromReq(el[0], "TargetAccAddress") && fromReq(el[1], "ReferenceId") {
-				if ex, ok := el[2].(*ssa.Extract); ok && ex.Tuple == gplCall.Instr.(ssa.Value) && ex.Index == 0 {
-					okPay = true
+	// what a role of CheckSignature is computed from: fields of the stored record, fields of the request, the link
+	type roleSrc struct {
+		rec, req map[string]bool
+		link     bool
+		calls    *Origin
+	}
+	srcOf := func(o *Origin) roleSrc {
+		rs := roleSrc{rec: map[string]bool{}, req: map[string]bool{}, calls: o}
+		for _, l := range o.Leaves {
+			switch {
+			case l.Kind == "call" && l.V == gsCall.Instr.(ssa.Value):
+				f := l.Path
+				if i := strings.LastIndex(f, "."); i >= 0 {
+					f = f[i+1:]
 				}
+				rs.rec[f] = true
+			case l.Kind == "call" && l.V == gplCall.Instr.(ssa.Value):
+				rs.link = true
+			case l.Kind == "param" && l.V == ssa.Value(reqP):
+				f := l.Path
+				if i := strings.LastIndex(f, "."); i >= 0 {
+					f = f[i+1:]
+				}
+				rs.req[f] = true
+			}
+		}
+		return rs
+	}
+	only := func(m map[string]bool, f string) bool { return len(m) == 1 && m[f] }
+	ca := check.Common().Args // cert, algo, signed, signature
+	if len(ca) != 4 {
+		r.Unk("C15.args", "CheckSignature(cert, algorithm, signed, signature)", w.Pos(check.Pos()), "unexpected arity")
+		return
+	}
+	rt := roleTracer()
+	sCert, sAlgo, sSigned, sSig := srcOf(rt.OriginsVia(*checkE, ca[0], nil)), srcOf(rt.OriginsVia(*checkE, ca[1], nil)), srcOf(rt.OriginsVia(*checkE, ca[2], nil)), srcOf(rt.OriginsVia(*checkE, ca[3], nil))
+	cpos := w.Pos(check.Pos())
+	r.Check(only(sSig.rec, "Signature") && len(sSig.req) == 0 && !sSig.link && visitedCallNamed(sSig.calls, "base64.Encoding.DecodeString"), "C15.args", "signature role <- stored record.Signature", cpos, "record.Signature, base64-decoded", fmt.Sprintf("the value verified as signature is not (only) the stored signature: record fields %v, request fields %v", keysOf(sSig.rec), keysOf(sSig.req)))
+	r.Check(only(sAlgo.rec, "Algorithm") && len(sAlgo.req) == 0 && !sAlgo.link && visitedCallNamed(sAlgo.calls, "GetSignatureAlgorithmFromString"), "C15.args", "algorithm role <- stored record.Algorithm", cpos, "record.Algorithm, mapped", fmt.Sprintf("the algorithm used is not (only) the stored algorithm: record fields %v, request fields %v", keysOf(sAlgo.rec), keysOf(sAlgo.req)))
+	r.Check(only(sCert.rec, "Certificate") && len(sCert.req) == 0 && !sCert.link && visitedCallNamed(sCert.calls, "GetUserCertificateFromString"), "C15.args", "certificate role <- stored record.Certificate", cpos, "record.Certificate, parsed", fmt.Sprintf("the certificate used is not (only) the stored certificate: record fields %v, request fields %v", keysOf(sCert.rec), keysOf(sCert.req)))
+	// payload: the signed bytes are CalculateHash(HashConcat(address, referenceId, link)) - the hash call is located on the
+	// slice of the signed bytes, its components are expressed in the query's terms
+	var hashE *EffSite
+	for c := range sSigned.calls.Calls {
+		if strings.HasSuffix(callName(c.Common()), "util.CalculateHash") {
+			for _, e := range find(func(s *Site) bool { return s.Instr == ssa.CallInstruction(c) }) {
+				e := e
+				hashE = &e
 			}
 		}
 	}
-	r.Check(okPay, "C15.payload", "payload = CalculateHash(HashConcat(address, referenceId, stored link))", w.Pos(isvCall.Instr.Pos()), "three components in this order", "the verified payload is not hash(address : referenceId : stored link)")
-	r.Check(check.Common().Args[2] != nil && tr.Origins(check.Common().Args[2]).Visited(pPayload), "C15.payload", "the signed content is the payload parameter", w.Pos(check.Pos()), "[]byte(signaturePayload)", "CheckSignature is not given the payload")
+	var comps []ssa.Value
+	if hashE != nil {
+		if hc, ok := isCallTo(siteCall(hashE.Site).Common().Args[0], "util.HashConcat"); ok {
+			for _, el := range varargElems(hc.Common().Args[0]) {
+				comps = append(comps, normLocal(hashE.ToRoot(el)))
+			}
+		}
+	}
+	compSrc := func(v ssa.Value) roleSrc { return srcOf(roleTracer().Origins(v)) }
+	okPay := len(comps) == 3 && len(sSigned.rec) == 0
+	if okPay {
+		c0, c1, c2 := compSrc(comps[0]), compSrc(comps[1]), compSrc(comps[2])
+		okPay = only(c0.req, "TargetAccAddress") && !c0.link && len(c0.rec) == 0 &&
+			only(c1.req, "ReferenceId") && !c1.link && len(c1.rec) == 0 &&
+			c2.link && len(c2.req) == 0 && len(c2.rec) == 0
+	}
+	r.Check(okPay, "C15.payload", "payload = CalculateHash(HashConcat(address, referenceId, stored link))", cpos, "three components in this order", "the verified payload is not hash(address : referenceId : stored link)")
+	r.Check(hashE != nil && sSigned.link && sSigned.req["TargetAccAddress"] && sSigned.req["ReferenceId"], "C15.payload", "the signed content is the payload", cpos, "the bytes handed to CheckSignature derive from the hash of address, reference id and link", "CheckSignature is not given the payload")
 	ga := gplCall.Args()
-	r.Check(fromReq(ga[len(ga)-1], "ReferenceId"), "C15.payload", "link looked up by the request's reference id", w.Pos(gplCall.Instr.Pos()), "GetPayloadLink(ctx, req.ReferenceId)", "the payload link is looked up under another id")
+	gsrc := compSrc(ga[len(ga)-1])
+	r.Check(only(gsrc.req, "ReferenceId") && !gsrc.link && len(gsrc.rec) == 0, "C15.payload", "link looked up by the request's reference id", w.Pos(gplCall.Instr.Pos()), "GetPayloadLink(ctx, req.ReferenceId)", "the payload link is looked up under another id")
 	// GetPayloadLink reads prefix + CalculateHash(referenceId)
 	{
 		ok := false
-		for _, s := range cg.Sites[gpl] {
-			if cg.Atom(s) == StoreGet {
-				loc := cg.StoreLocOf(s)
-				keyStr := stringUnderBytes(s.Args()[0])
-				if h, isH := isCallTo(keyStr, "util.CalculateHash"); isH && h.Common().Args[0] == ssa.Value(gpl.Params[len(gpl.Params)-1]) && loc.Resolved || strings.HasPrefix(loc.Prefix, linkPrefix) && isH {
-					ok = true
-				}
+		for _, e := range w.effectsBelow(gpl, func(s *Site) bool { return cg.Atom(s) == StoreGet }, 2) {
+			s := e.Site
+			loc := cg.StoreLocOf(s)
+			keyStr := stringUnderBytes(s.Args()[0])
+			if h, isH := isCallTo(keyStr, "util.CalculateHash"); isH && (e.ToRoot(h.Common().Args[0]) == ssa.Value(gpl.Params[len(gpl.Params)-1]) && loc.Resolved || strings.HasPrefix(loc.Prefix, linkPrefix)) {
+				ok = true
 			}
 		}
 		r.Check(ok, "C15.payload", "GetPayloadLink reads the payload-link prefix under CalculateHash(referenceId)", w.Pos(gpl.Pos()), "same key derivation as the publishing side expects", "the link is read from another place")
 	}
 	// storage key
+	var skComps []ssa.Value
 	{
 		ok := false
-		var sk ssa.Value
-		for _, ret := range Returns(csk) {
-			o := tr.Origins(retVals(ret)[0])
-			for c := range o.Calls {
-				if strings.HasSuffix(callName(c.Common()), "util.CalculateHash") {
-					if hc, isHC := isCallTo(c.Common().Args[0], "util.HashConcat"); isHC {
-						el := varargElems(hc.Common().Args[0])
-						if len(el) == 2 && loadOfField(el[0], "TargetAccAddress", nil) && loadOfField(el[1], "ReferenceId", nil) {
-							ok = true
-						}
+		for _, e := range w.effectsBelow(csk, func(s *Site) bool { return calleeIs(s, "x/cfesignature/util.CalculateHash") }, 2) {
+			if hc, isHC := isCallTo(siteCall(e.Site).Common().Args[0], "util.HashConcat"); isHC {
+				el := varargElems(hc.Common().Args[0])
+				if len(el) == 2 {
+					a, b := normLocal(e.ToRoot(el[0])), normLocal(e.ToRoot(el[1]))
+					if loadOfField(a, "TargetAccAddress", nil) && loadOfField(b, "ReferenceId", nil) {
+						ok = true
 					}
 				}
 			}
-			_ = sk
 		}
 		gsa := gsCall.Args()
 		okLookup := loadOfField(gsa[len(gsa)-1], "StorageKey", nil)
@@ -352,24 +322,20 @@ func checkC15(w *World, r *Report) {
 		okReq := o.HasLeaf("param", ".QueryVerifySignatureRequest.TargetAccAddress") && o.HasLeaf("param", ".QueryVerifySignatureRequest.ReferenceId")
 		r.Check(ok && okLookup && okReq, "C15.payload", "record looked up under CalculateHash(HashConcat(address, referenceId))", w.Pos(gsCall.Instr.Pos()), "storage key derived from the request's address and reference id", "the signature record is looked up under a key not derived from (address, referenceId)")
 	}
+	_ = skComps
 	// one rendering of the reference id (and of the address) everywhere: the record key, the link key and the
 	// payload must agree on the very same string, otherwise the signature found, the link found and the content
 	// verified belong to different registry entries
 	{
-		uses := map[string][]ssa.Value{"ReferenceId": {ga[len(ga)-1]}, "TargetAccAddress": {}}
-		if h, ok := isCallTo(pay, "util.CalculateHash"); ok {
-			if hc, ok := isCallTo(h.Common().Args[0], "util.HashConcat"); ok {
-				el := varargElems(hc.Common().Args[0])
-				if len(el) == 3 {
-					uses["TargetAccAddress"] = append(uses["TargetAccAddress"], paySubst(el[0]))
-					uses["ReferenceId"] = append(uses["ReferenceId"], paySubst(el[1]))
-				}
-			}
+		uses := map[string][]ssa.Value{"ReferenceId": {normLocal(ga[len(ga)-1])}, "TargetAccAddress": {}}
+		if len(comps) == 3 {
+			uses["TargetAccAddress"] = append(uses["TargetAccAddress"], comps[0])
+			uses["ReferenceId"] = append(uses["ReferenceId"], comps[1])
 		}
 		for _, fs := range FieldStores(ver) {
 			if namedIs(fs.Struct, "x/cfesignature/types", "QueryCreateStorageKeyRequest") {
 				if _, ok := uses[fs.Field]; ok {
-					uses[fs.Field] = append(uses[fs.Field], fs.Store.Val)
+					uses[fs.Field] = append(uses[fs.Field], normLocal(fs.Store.Val))
 				}
 			}
 		}
@@ -385,41 +351,113 @@ func checkC15(w *World, r *Report) {
 		}
 	}
 	// ---------- C15.verdict ----------
-	for _, fs := range FieldStores(ver) {
-		if fs.Field == "Valid" {
-			if s, ok := EvalString(fs.Store.Val); ok && s == "valid" {
-				r.Check(OnSuccessEdge(ver, fs.Store, siteValue(isvCall)), "C15.verdict", "Valid=\"valid\" only when the verifier returned nil", w.Pos(fs.Store.Pos()), "dominated by the nil edge of isValidSignature's error", "the query can answer valid although verification failed")
+	// the call of the query through which the verification is reached
+	topCall := checkE.Site
+	if len(checkE.Chain) > 0 {
+		topCall = checkE.Chain[0]
+	}
+	for _, sb := range w.storesBelow(ver, "QueryVerifySignatureResponse", 2, nil) {
+		if sb.FS.Field == "Valid" {
+			if s, ok := EvalString(sb.FS.Store.Val); ok && s == "valid" {
+				r.Check(OnSuccessEdge(ver, sb.Top(), siteValue(topCall)), "C15.verdict", "Valid=\"valid\" only when the verifier returned nil", w.Pos(sb.FS.Store.Pos()), "dominated by the nil edge of the verifier's error", "the query can answer valid although verification failed")
 			}
 		}
 	}
 	{
+		// every function between the query and CheckSignature returns nil only on the success edge of the next call down
 		ok := true
 		n := 0
-		for _, ret := range Returns(isv) {
-			v := retVals(ret)[0]
-			if isNilConst(v) {
-				n++
-				if !OnSuccessEdge(isv, ret, check) {
-					ok = false
+		for lvl, c := range checkE.Chain {
+			fn := c.Static
+			var next ssa.Value
+			if lvl+1 < len(checkE.Chain) {
+				next = siteValue(checkE.Chain[lvl+1])
+			} else {
+				next = check
+			}
+			for _, ret := range Returns(fn) {
+				rv := retVals(ret)
+				v := rv[len(rv)-1]
+				if isNilConst(v) {
+					n++
+					if next == nil || !OnSuccessEdge(fn, ret, next) {
+						ok = false
+					}
 				}
 			}
 		}
-		r.Check(ok && n > 0, "C15.verdict", "the verifier returns nil only when CheckSignature returned nil", w.Pos(check.Pos()), "every nil return is dominated by the nil edge of CheckSignature's error", "the verifier can report success without a successful CheckSignature")
+		r.Check(ok && n > 0, "C15.verdict", "the verifier returns nil only when CheckSignature returned nil", cpos, "every nil return between the query and CheckSignature is dominated by the nil edge of the next call's error", "the verifier can report success without a successful CheckSignature")
 	}
 	// ---------- C15.fields ----------
+	recField := func(v ssa.Value, f string) bool {
+		return loadOfField(v, f, func(b ssa.Value) bool { return derefRoot(b) == rec || derefRootThroughLocal(b) == rec })
+	}
+	resp := w.storesBelow(ver, "QueryVerifySignatureResponse", 2, nil)
 	for _, f := range []string{"Signature", "Algorithm", "Certificate", "Timestamp"} {
 		found := false
-		for _, fs := range FieldStores(ver) {
-			if fs.Field != f || fs.Struct == nil || fs.Struct.Obj().Name() != "QueryVerifySignatureResponse" {
+		for _, sb := range resp {
+			if sb.FS.Field != f {
 				continue
 			}
 			found = true
-			r.Check(recField(fs.Store.Val, f), "C15.fields", "response."+f+" <- record."+f, w.Pos(fs.Store.Pos()), "same-named field of the stored record", "the response field "+f+" is not the stored "+f)
+			r.Check(recField(sb.Val, f), "C15.fields", "response."+f+" <- record."+f, w.Pos(sb.FS.Store.Pos()), "same-named field of the stored record", "the response field "+f+" is not the stored "+f)
 		}
 		if !found {
 			r.Bad("C15.fields", "response."+f+" is set", w.Pos(ver.Pos()), "the response does not return the stored "+f)
 		}
 	}
+}
+
+// normLocal resolves a load of a field of a local struct literal (or of a struct value loaded from one) to the value
+// stored into that field, when there is exactly one such store: values handed to a helper inside a small struct are
+// compared as the values themselves.
+func normLocal(v ssa.Value) ssa.Value {
+	for i := 0; i < 4; i++ {
+		var base ssa.Value
+		field := -1
+		switch x := v.(type) {
+		case *ssa.UnOp:
+			if x.Op != token.MUL {
+				return v
+			}
+			fa, ok := x.X.(*ssa.FieldAddr)
+			if !ok {
+				return v
+			}
+			base, field = fa.X, fa.Field
+		case *ssa.Field:
+			base, field = x.X, x.Field
+		default:
+			return v
+		}
+		if u, ok := base.(*ssa.UnOp); ok && u.Op == token.MUL {
+			base = u.X
+		}
+		al, ok := base.(*ssa.Alloc)
+		if !ok || al.Referrers() == nil {
+			return v
+		}
+		var stored ssa.Value
+		n := 0
+		for _, ref := range *al.Referrers() {
+			if fa, ok := ref.(*ssa.FieldAddr); ok && fa.Field == field && fa.Referrers() != nil {
+				for _, r2 := range *fa.Referrers() {
+					if st, ok := r2.(*ssa.Store); ok && st.Addr == ssa.Value(fa) {
+						stored = st.Val
+						n++
+					}
+				}
+			}
+			if st, ok := ref.(*ssa.Store); ok && st.Addr == ssa.Value(al) {
+				return v // whole-struct store: not a literal
+			}
+		}
+		if n != 1 {
+			return v
+		}
+		v = stored
+	}
+	return v
 }
 
 // stringUnderBytes strips []byte(s) and module helpers returning []byte(param).
